@@ -200,10 +200,6 @@ class Variant:
         self.single_char = single_char
 
 
-def _ascii_only(s: str) -> Optional[Tuple[int, ...]]:
-    return cps(s) if all(ord(c) <= 127 for c in s) else None
-
-
 VARIANTS: List[Variant] = [
     Variant("py:n:0:0", lambda s: _py().string_literal(s), cps, "py"),
     Variant("py:s:0:0", lambda s: _py().string_literal(s, _pyq("s")), cps, "py"),
@@ -211,7 +207,8 @@ VARIANTS: List[Variant] = [
     Variant("py:n:0:1", lambda s: _py().string_literal(s, duplicate_curly_brackets=True), cps, "pyf"),
     Variant("py:d:0:1", lambda s: _py().string_literal(s, _pyq("d"), duplicate_curly_brackets=True), cps, "pyf"),
     Variant("cppw", lambda s: _cpp().wstring_literal(s), cps, "cppw"),
-    Variant("cppn", lambda s: _cpp().string_literal(s), _ascii_only, "cppn"),
+    # narrow literals denote UTF-8 bytes (since the repair of C02-F2 for every scalar value; a surrogate must raise)
+    Variant("cppn", lambda s: _cpp().string_literal(s), utf8, "cppn"),
     Variant("cppc", lambda s: _cpp().wchar_literal(s), cps, "cppc", single_char=True),
     Variant("cs", lambda s: _cs().string_literal(s), utf16, "cs"),
     Variant("java", lambda s: _java().string_literal(s), utf16, "java"),
@@ -492,9 +489,6 @@ def run_strings(ctx: Ctx, with_model: bool, items: Optional[List[Tuple[str, str]
         sel = [(s, st) for (s, st) in items if (len(s) == 1 or st == "corpus" or s in ("", "ab")) or not v.single_char]
         if v.name not in TRIPLES_FOR and ctx.tier == "quick":
             sel = [(s, st) for (s, st) in sel if st != "enumerated3"]
-        if v.name == "cppn":
-            # narrow literals: ASCII strings, plus all single characters / a part of the rest for the error path
-            sel = [(s, st) for k, (s, st) in enumerate(sel) if all(ord(c) < 128 for c in s) or len(s) <= 1 or k % 7 == 0]
         outs = [call(v.enc, s) for s, _ in sel]
         idx = [k for k, ((s, st), o) in enumerate(zip(sel, outs)) if o[0] == "ok" and _thin(ctx, v.reader, st, k)]
         if v.reader == "java" and ctx.tier == "quick":
